@@ -50,6 +50,7 @@ fn generate(prop: &str, seed: u64, thorough: bool) -> Option<Plan> {
         "C05" => Some(scen_link::gen_c05(seed, thorough)),
         "C05udp" => Some(scen_c05u::gen_c05u(seed, thorough)),
         "C05udpin" => Some(scen_c05i::gen_c05i("C05", seed, thorough)),
+        "C02v6" => Some(scen_udp::gen_c02_v6(seed, thorough)),
         "C02owner" => Some(scen_c05i::gen_c05i("C02", seed, thorough)),
         "C08reply" => Some(scen_c05i::gen_c05i("C08", seed, thorough)),
         "C06" => Some(scen_adv::gen_adv("C06", seed, thorough)),
@@ -69,6 +70,7 @@ fn generate(prop: &str, seed: u64, thorough: bool) -> Option<Plan> {
         "C12wrap" => Some(scen_c12::gen_c12_wrap(seed, thorough)),
         "C13" => Some(scen_local::gen_c13(seed, thorough)),
         "C14" => Some(scen_c14::gen_c14(seed, thorough)),
+        "C14udp" => Some(scen_c14::gen_c14_udp(seed, thorough)),
         "C15" => Some(scen_c15::gen_c15(seed, thorough)),
         "C16" => Some(scen_c16::gen_c16(seed, thorough)),
         _ => None,
@@ -92,9 +94,11 @@ fn execute(plan: &Plan) -> Outcome {
         "dgram-in-stream" => scen_ustream::execute_ustream(plan),
         "survival-udp" => scen_c08u::execute_c08u(plan),
         "udp-system" => scen_udp::execute_udp(plan),
+        "udp-ipv6-target" => scen_udp::execute_c02_v6(plan),
         "pw-model" => scen_pw::execute_pw(plan),
         "config-names" => scen_c16::execute_c16(plan),
         "addresses" => scen_c14::execute_c14(plan),
+        "addresses-udp" => scen_c14::execute_c14_udp(plan),
         "interop" => scen_ref::execute_c03(plan),
         "interop-key-chain" => scen_ref::execute_c03_keys(plan),
         "freshness" => scen_c10::execute_c10(plan),
